@@ -1,4 +1,260 @@
 import A2lVerif.Model.Tree
 /-! helper lemmas for C05 (writer structure: chunks, stability, edit locality) -/
 namespace A2l.Tree
+
+/-! ## stable insertion: `mergeSort` as an insertion sort -/
+section Ins
+variable {α : Type _}
+
+/-- stable insertion of an element that stood *in front of* the sorted rest: it goes before the first element it is
+    `le` to -/
+def ins (le : α → α → Bool) (a : α) : List α → List α
+  | [] => [a]
+  | b :: s => if le a b then a :: b :: s else b :: ins le a s
+
+theorem ins_append (le : α → α → Bool) (a : α) :
+    ∀ (l₁ l₂ : List α), (∀ b ∈ l₁, le a b = false) → (∀ b ∈ l₂, le a b = true) →
+      ins le a (l₁ ++ l₂) = l₁ ++ a :: l₂
+  | [], [], _, _ => rfl
+  | [], b :: l₂, _, h₂ => by simp [ins, h₂ b List.mem_cons_self]
+  | b :: l₁, l₂, h₁, h₂ => by
+    have hb : le a b = false := h₁ b List.mem_cons_self
+    have ih := ins_append le a l₁ l₂ (fun c hc => h₁ c (List.mem_cons_of_mem _ hc)) h₂
+    simp [ins, hb, ih]
+
+/-- `mergeSort` puts the head in by stable insertion -/
+theorem mergeSort_cons_ins {le : α → α → Bool}
+    (trans : ∀ (a b c : α), le a b → le b c → le a c)
+    (total : ∀ (a b : α), le a b || le b a)
+    (a : α) (l : List α) : (a :: l).mergeSort le = ins le a (l.mergeSort le) := by
+  obtain ⟨l₁, l₂, h₁, h₂, h₃⟩ := List.mergeSort_cons trans total a l
+  have s := List.pairwise_mergeSort trans total (a :: l)
+  rw [h₁] at s
+  rw [h₁, h₂]
+  symm
+  apply ins_append
+  · intro b hb
+    simpa using h₃ b hb
+  · intro b hb
+    have := (List.pairwise_append.mp s).2.1
+    exact List.rel_of_pairwise_cons this hb
+
+/-- one extra element `x` somewhere in a list -/
+def OneMore (x : α) (s s' : List α) : Prop := ∃ l₁ l₂, s = l₁ ++ l₂ ∧ s' = l₁ ++ x :: l₂
+
+theorem ins_oneMore {le : α → α → Bool}
+    (trans : ∀ (a b c : α), le a b → le b c → le a c) (a x : α) :
+    ∀ (l₁ l₂ : List α), (l₁ ++ x :: l₂).Pairwise (fun a b => le a b) →
+      OneMore x (ins le a (l₁ ++ l₂)) (ins le a (l₁ ++ x :: l₂))
+  | [], l₂, hs => by
+    simp only [List.nil_append, ins]
+    cases hax : le a x
+    · exact ⟨[], ins le a l₂, by simp, by simp⟩
+    · have h2 : ins le a l₂ = a :: l₂ := by
+        cases l₂ with
+        | nil => rfl
+        | cons b l₂ =>
+          have hxb : le x b = true := List.rel_of_pairwise_cons hs List.mem_cons_self
+          have hab : le a b = true := trans a x b hax hxb
+          simp [ins, hab]
+      exact ⟨[a], l₂, by simp [h2], by simp⟩
+  | b :: l₁, l₂, hs => by
+    simp only [List.cons_append, ins]
+    cases hab : le a b
+    · obtain ⟨m₁, m₂, e₁, e₂⟩ := ins_oneMore trans a x l₁ l₂ (List.Pairwise.of_cons hs)
+      exact ⟨b :: m₁, m₂, by simp [e₁], by simp [e₂]⟩
+    · exact ⟨a :: b :: l₁, l₂, by simp, by simp⟩
+
+/-- **stability, insertion form**: an element inserted anywhere into the unsorted input appears at one place of the
+    sorted output, everything else keeps its order -/
+theorem mergeSort_oneMore {le : α → α → Bool}
+    (trans : ∀ (a b c : α), le a b → le b c → le a c)
+    (total : ∀ (a b : α), le a b || le b a) (x : α) (g₂ : List α) :
+    ∀ g₁ : List α, OneMore x ((g₁ ++ g₂).mergeSort le) ((g₁ ++ x :: g₂).mergeSort le)
+  | [] => by
+    obtain ⟨l₁, l₂, h₁, h₂, -⟩ := List.mergeSort_cons trans total x g₂
+    exact ⟨l₁, l₂, by simpa using h₂, by simpa using h₁⟩
+  | a :: g₁ => by
+    obtain ⟨l₁, l₂, e₁, e₂⟩ := mergeSort_oneMore trans total x g₂ g₁
+    have s := List.pairwise_mergeSort trans total (g₁ ++ x :: g₂)
+    rw [e₂] at s
+    have := ins_oneMore trans a x l₁ l₂ s
+    simp only [List.cons_append]
+    rw [mergeSort_cons_ins trans total, mergeSort_cons_ins trans total, e₁, e₂]
+    exact this
+
+/-- one element exchanged at one place -/
+def OneChanged (x x' : α) (s s' : List α) : Prop := ∃ l₁ l₂, s = l₁ ++ x :: l₂ ∧ s' = l₁ ++ x' :: l₂
+
+theorem ins_self_oneChanged {le : α → α → Bool} (x x' : α) (hl : ∀ y, le x y = le x' y) :
+    ∀ s : List α, OneChanged x x' (ins le x s) (ins le x' s)
+  | [] => ⟨[], [], rfl, rfl⟩
+  | b :: s => by
+    simp only [ins, ← hl b]
+    cases le x b
+    · obtain ⟨m₁, m₂, e₁, e₂⟩ := ins_self_oneChanged x x' hl s
+      exact ⟨b :: m₁, m₂, by simp [e₁], by simp [e₂]⟩
+    · exact ⟨[], b :: s, by simp, by simp⟩
+
+theorem ins_oneChanged {le : α → α → Bool} (a x x' : α) (hr : ∀ y, le y x = le y x') :
+    ∀ (l₁ l₂ : List α), OneChanged x x' (ins le a (l₁ ++ x :: l₂)) (ins le a (l₁ ++ x' :: l₂))
+  | [], l₂ => by
+    simp only [List.nil_append, ins, ← hr a]
+    cases le a x
+    · exact ⟨[], ins le a l₂, by simp, by simp⟩
+    · exact ⟨[a], l₂, by simp, by simp⟩
+  | b :: l₁, l₂ => by
+    simp only [List.cons_append, ins]
+    cases le a b
+    · obtain ⟨m₁, m₂, e₁, e₂⟩ := ins_oneChanged a x x' hr l₁ l₂
+      exact ⟨b :: m₁, m₂, by simp [e₁], by simp [e₂]⟩
+    · exact ⟨a :: b :: l₁, l₂, by simp, by simp⟩
+
+/-- **stability, change form**: exchanging one element for one with the same sort key exchanges exactly that element
+    in the sorted output -/
+theorem mergeSort_oneChanged {le : α → α → Bool}
+    (trans : ∀ (a b c : α), le a b → le b c → le a c)
+    (total : ∀ (a b : α), le a b || le b a) (x x' : α)
+    (hl : ∀ y, le x y = le x' y) (hr : ∀ y, le y x = le y x') (g₂ : List α) :
+    ∀ g₁ : List α, OneChanged x x' ((g₁ ++ x :: g₂).mergeSort le) ((g₁ ++ x' :: g₂).mergeSort le)
+  | [] => by
+    simp only [List.nil_append]
+    rw [mergeSort_cons_ins trans total, mergeSort_cons_ins trans total]
+    exact ins_self_oneChanged x x' hl _
+  | a :: g₁ => by
+    obtain ⟨l₁, l₂, e₁, e₂⟩ := mergeSort_oneChanged trans total x x' hl hr g₂ g₁
+    simp only [List.cons_append]
+    rw [mergeSort_cons_ins trans total, mergeSort_cons_ins trans total, e₁, e₂]
+    exact ins_oneChanged a x x' hr l₁ l₂
+
+end Ins
+
+/-! ## `tagLe` is a total preorder -/
+
+/-- `tagLe` as a proposition: new items (uid 0) last, then by uid, line, tag -/
+theorem tagLe_iff (a b : TagInfo) : tagLe a b = true ↔
+    ((a.uid = 0 → b.uid = 0) ∧
+     ((b.uid = 0 ∧ a.uid ≠ 0) ∨ a.uid < b.uid ∨
+      (a.uid = b.uid ∧ (a.line < b.line ∨ (a.line = b.line ∧ String.ofList a.tag ≤ String.ofList b.tag))))) := by
+  unfold tagLe
+  by_cases ha : a.uid = 0 <;> by_cases hb : b.uid = 0 <;> by_cases hab : a.uid = b.uid <;>
+    by_cases hl : a.line = b.line <;> simp [ha, hb, hab, hl] <;> omega
+
+theorem tagLe_total (a b : TagInfo) : (tagLe a b || tagLe b a) = true := by
+  rw [Bool.or_eq_true, tagLe_iff, tagLe_iff]
+  rcases String.le_total (String.ofList a.tag) (String.ofList b.tag) with hs | hs
+  · by_cases h : a.uid = b.uid ∧ a.line = b.line
+    · left; refine ⟨by omega, Or.inr (Or.inr ⟨h.1, Or.inr ⟨h.2, hs⟩⟩)⟩
+    · omega
+  · by_cases h : a.uid = b.uid ∧ a.line = b.line
+    · right; refine ⟨by omega, Or.inr (Or.inr ⟨h.1.symm, Or.inr ⟨h.2.symm, hs⟩⟩)⟩
+    · omega
+
+theorem tagLe_trans (a b c : TagInfo) (h₁ : tagLe a b = true) (h₂ : tagLe b c = true) : tagLe a c = true := by
+  rw [tagLe_iff] at *
+  by_cases h : a.uid = b.uid ∧ a.line = b.line ∧ b.uid = c.uid ∧ b.line = c.line
+  · obtain ⟨e₁, e₂, e₃, e₄⟩ := h
+    have s₁ : String.ofList a.tag ≤ String.ofList b.tag := by
+      rcases h₁.2 with h | h | ⟨-, h | ⟨-, h⟩⟩ <;> first | exact h | omega
+    have s₂ : String.ofList b.tag ≤ String.ofList c.tag := by
+      rcases h₂.2 with h | h | ⟨-, h | ⟨-, h⟩⟩ <;> first | exact h | omega
+    exact ⟨by omega, Or.inr (Or.inr ⟨by omega, Or.inr ⟨by omega, String.le_trans s₁ s₂⟩⟩)⟩
+  · obtain ⟨h₁a, h₁b⟩ := h₁
+    obtain ⟨h₂a, h₂b⟩ := h₂
+    refine ⟨by omega, ?_⟩
+    rcases h₁b with h | h | ⟨e, h | ⟨e', h⟩⟩ <;> rcases h₂b with k | k | ⟨f, k | ⟨f', k⟩⟩ <;> omega
+
+/-- the sort key of an item: `tagLe` looks at nothing else -/
+theorem tagLe_key_left (x x' : TagInfo) (hkey : x'.uid = x.uid ∧ x'.line = x.line ∧ x'.tag = x.tag) (y : TagInfo) :
+    tagLe x y = tagLe x' y := by
+  unfold tagLe; rw [hkey.1, hkey.2.1, hkey.2.2]
+
+theorem tagLe_key_right (x x' : TagInfo) (hkey : x'.uid = x.uid ∧ x'.line = x.line ∧ x'.tag = x.tag) (y : TagInfo) :
+    tagLe y x = tagLe y x' := by
+  unfold tagLe; rw [hkey.1, hkey.2.1, hkey.2.2]
+
+/-! ## line breaks -/
+
+theorem countNewlines_foldl (cs : List Char) (n : Nat) :
+    cs.foldl (fun n c => if c = '\n' then n + 1 else n) n = n + countNewlines cs := by
+  unfold countNewlines
+  induction cs generalizing n with
+  | nil => simp
+  | cons c cs ih =>
+    simp only [List.foldl_cons]
+    rw [ih, ih (if c = '\n' then 0 + 1 else 0)]
+    split <;> omega
+
+theorem countNewlines_nil : countNewlines [] = 0 := rfl
+
+theorem countNewlines_cons (c : Char) (cs : List Char) :
+    countNewlines (c :: cs) = (if c = '\n' then 1 else 0) + countNewlines cs := by
+  show List.foldl _ _ _ = _
+  rw [List.foldl_cons, countNewlines_foldl]
+
+theorem countNewlines_append (a b : List Char) : countNewlines (a ++ b) = countNewlines a + countNewlines b := by
+  induction a with
+  | nil => simp [countNewlines_nil]
+  | cons c a ih => simp only [List.cons_append, countNewlines_cons, ih]; omega
+
+theorem countNewlines_replicate_nl (n : Nat) : countNewlines (List.replicate n '\n') = n := by
+  induction n with
+  | zero => rfl
+  | succ n ih => rw [List.replicate_succ, countNewlines_cons, ih]; simp; omega
+
+theorem countNewlines_blanks (cs : List Char) (h : ∀ c ∈ cs, c = ' ') : countNewlines cs = 0 := by
+  induction cs with
+  | nil => rfl
+  | cons c cs ih =>
+    rw [countNewlines_cons, ih (fun d hd => h d (List.mem_cons_of_mem _ hd))]
+    have : c = ' ' := h c List.mem_cons_self
+    subst this
+    decide
+
+theorem mem_indentBlanks (indent : Nat) (c : Char) (h : c ∈ (List.replicate indent [' ', ' ']).flatten) : c = ' ' := by
+  simp only [List.mem_flatten, List.mem_replicate] at h
+  obtain ⟨l, ⟨-, rfl⟩, hc⟩ := h
+  simpa using hc
+
+/-! ## chunks -/
+
+/-- the text one tagged item contributes: leading line breaks, optional `/begin`, tag, body, optional `/end` tag -/
+def chunk (indent : Nat) (item : TagInfo) : List Char :=
+  addWhitespace indent item.startOff ++ (if item.isBlock then "/begin ".toList else []) ++ item.tag ++ item.text ++
+    (if item.isBlock then addWhitespace indent item.endOff ++ "/end ".toList ++ item.tag else [])
+
+/-- items that the plain-concatenation reading applies to: no comments and no position restrictions in the group
+    (comments only change the line breaks of their successor, restricted items are permuted among their own slots) -/
+def Plain (g : List TagInfo) : Prop := ∀ x ∈ g, x.isComment = false ∧ x.pos = none
+
+theorem Plain.mergeSort {g : List TagInfo} (hp : Plain g) : Plain (g.mergeSort tagLe) :=
+  fun x hx => hp x (List.mem_mergeSort.mp hx)
+
+theorem Plain.remove {g₁ g₂ : List TagInfo} {x : TagInfo} (hp : Plain (g₁ ++ x :: g₂)) : Plain (g₁ ++ g₂) := by
+  intro y hy
+  apply hp y
+  simp only [List.mem_append, List.mem_cons] at hy ⊢
+  rcases hy with h | h
+  · exact Or.inl h
+  · exact Or.inr (Or.inr h)
+
+theorem applyPositionRestrictions_plain {g : List TagInfo} (hp : Plain g) : applyPositionRestrictions g = g := by
+  have : g.filter (·.pos.isSome) = [] := by
+    rw [List.filter_eq_nil_iff]
+    intro x hx
+    simp [(hp x hx).2]
+  simp [applyPositionRestrictions, this]
+
+theorem emitGroup_plain (indent : Nat) : ∀ (g : List TagInfo), Plain g → emitGroup indent g 0 = g.flatMap (chunk indent)
+  | [], _ => rfl
+  | x :: g, hp => by
+    have hx := (hp x List.mem_cons_self).1
+    have ih := emitGroup_plain indent g (fun y hy => hp y (List.mem_cons_of_mem _ hy))
+    simp [emitGroup, hx, ih, chunk]
+
+theorem addGroup_plain (indent : Nat) (g : List TagInfo) (hp : Plain g) :
+    addGroup indent g = (g.mergeSort tagLe).flatMap (chunk indent) := by
+  unfold addGroup
+  rw [applyPositionRestrictions_plain hp.mergeSort, emitGroup_plain indent _ hp.mergeSort]
+
 end A2l.Tree
